@@ -14,22 +14,22 @@ def chk(pid, technique, text, note, design, engine):
         level_claimed=dict(category="model_checking", text=text, design_ref=design), level_note=note, technique=technique)
 
 chk("C01","explicit-state enumeration of closed position universes (E1) and reachability BFS over the real push (E2), lock-step against a reference rules model",
-    "Every position of the stated universes (all <=3-men positions, castling/en-passant/promotion families, two-pawn family, KRk closure, BFS around 9 roots) is visited; in each the engine's checked list must equal the model's legal set and the unchecked list must be a superset with only self-check extras. Exhaustive within the stated bounds, not sampled. Four fixed 398-ply games add the history dimension (state stack near the interface limit); the real binary's `perft <d> <fen> [moves]` divide output for 23 cases is compared with the model (binds main.rs and the release build).",
+    "Every position of the stated universes (all <=3-men positions, castling/en-passant/promotion families, two-pawn family, KRk closure, BFS around 9 roots) is visited; in each the engine's checked list must equal the model's legal set and the unchecked list must be a superset with only self-check extras. Exhaustive within the stated bounds, not sampled. Four fixed 398-ply games add the history dimension (state stack near the interface limit); the real binary's `perft <d> <fen> [moves]` divide output for 23 cases is compared with the model (binds main.rs and the release build). Universe UPP: two promoting pawns with one target square, king and an enemy slider anywhere.",
     MODEL+"; bounded by piece count / BFS depth as listed in the evidence", "5/C01", "E1+E2")
 chk("C02","explicit-state enumeration (E1/E2): every transition of every visited state replayed on the real push and compared with the model's successor",
     "Every legal move out of every visited state is made on the real Game (loaded from text and reached by replaying the BFS path) and placement, side, rights and en-passant nibble are compared with the model's apply(). Universe UEX puts every move kind (promotion, castling, a second double step) behind a pending en-passant file; four fixed 398-ply games add long histories.",
     MODEL, "5/C02", "E1+E2")
 chk("C03","explicit-state enumeration (E1/E2) plus exhaustive nested push/pop sequences to depth 2 (quick) / 3 (thorough) over the unchecked move lists",
-    "In every visited state every query and every push;pop of every unchecked move, and all nested sequences up to the nesting depth, must leave the complete internal dump and all public observables bit-identical. Excursions that end with a query in the child (push; get_moves; pop) must leave both move lists of the parent as they were - state that lives outside the dump (lazy caches) shows only in behaviour.",
+    "In every visited state every query and every push;pop of every unchecked move, and all nested sequences up to the nesting depth, must leave the complete internal dump and all public observables bit-identical. Excursions that end with a query in the child (push; get_moves; pop) must leave both move lists of the parent as they were - state that lives outside the dump (lazy caches) shows only in behaviour. Thorough tier: nesting depth 3 on every 8th state of each space, depth 2 on the others.",
     MODEL+"; H1 dump hook (read-only)", "5/C03", "E1+E2")
 chk("C04","explicit-state enumeration (E1/E2) against an independent recomputation of the hash from zobrist_bytes.bin",
     "Every visited state (loaded from text and reached by path) and every transition: hash() equals the XOR of the published key-file entries computed by the harness; start position anchored to the README constant.",
     MODEL+"; key-file layout as published in DESIGN.md C04", "5/C04", "E1+E2")
 chk("C05","explicit-state enumeration: one global hash->position table over all visited states, plus the complete single-feature neighbourhood of a fixed-stride subset of states",
-    "No two distinct visited positions share a hash (exact table, ~10^7 positions quick); for each base state every single-feature variant loaded from text hashes differently; key file pairwise distinct per feature.",
+    "No two distinct visited positions share a hash (exact table, ~10^7 positions quick); for each base state every single-feature variant loaded from text hashes differently; key file pairwise distinct per feature. The hashes carried through castling, en passant and promotion enter the collision table under the successor's key (a wrong but symmetric make/unmake collides with the text-loaded twin).",
     MODEL+"; collision freedom is relative to the visited set", "5/C05", "E1+E6")
 chk("C11","explicit-state enumeration (E1/E2) with an independent FEN writer/reader",
-    "Every visited state: fen() is six well-formed fields string-equal (fields 1-4) to the model's rendering; re-import has the same core, hash and legal moves.",
+    "Every visited state: fen() is six well-formed fields string-equal (fields 1-4) to the model's rendering; re-import has the same core, hash and legal moves. The reached game is also built with push_history (three-digit move numbers on the 398-ply lines).",
     MODEL, "5/C11", "E1+E2")
 chk("C12","explicit-state enumeration (E1/E2) for the text round trip; exhaustive input enumeration (E6) of the complete 64x64x7 move-string alphabet through the real `position` command in every state of a family",
     "Round trip of every legal move in every visited state; in ~1300 (quick) states every one of the 28672 move-shaped strings is sent through the real uci_talk `position fen .. moves s` + `show`: accepted iff legal, shown position == model successor, otherwise error and the prior position or no game. The three FEN forms the reader accepts (6, 4, 5 fields) take turns in `position fen <F> moves ...`.",
@@ -46,36 +46,36 @@ chk("C20","explicit-state enumeration (E1/E2): every transition played into the 
 
 SRCH = "search driven in-process through get_best_move_until_stop / get_best_move_entry with the node-entry hook H2 (poll counter, stop point, depth monitor, table-less switch); legality judged by the reference model"
 chk("C06","operation-sequence exploration (E3): all words over {search(position_i, depth_j), NEWGAME} up to length 3 on one shared transposition table, plus every small position once as a root",
-    "Every search of every word over 8 families of ~12 related positions (transpositions, other side to move, changed rights, shuffled history that triggers the repetition filter, single-reply, checkmated, stalemated, foreign positions) must announce a model-legal move, none only without legal moves; caller's game unchanged. Histories with INTERRUPTED searches: a search stopped inside every poll (fixed stride on large trees), then the same root again, a table audit (hook H5) and searches of every position whose cached move is not legal there; deep histories: after an unlimited search that completed all 64 iterations, 8 kinds of follow-up searches.",
+    "Every search of every word over 8 families of ~12 related positions (transpositions, other side to move, changed rights, shuffled history that triggers the repetition filter, single-reply, checkmated, stalemated, foreign positions) must announce a model-legal move, none only without legal moves; caller's game unchanged. Histories with INTERRUPTED searches: a search stopped inside every poll (fixed stride on large trees), then the same root again, a table audit (hook H5) and searches of every position whose cached move is not legal there; deep histories: after an unlimited search that completed all 64 iterations, 8 kinds of follow-up searches. Self-play lines: 25 roots x depths 1-5, up to eight searches on one table with the announced move played in between, the table audited after every search.",
     SRCH+"; depth limits <= 3 (4 thorough)", "5/C06", "E3")
 chk("C07","stop-point enumeration (E4): for every (root, depth, fresh/warm table) one run per node-entry poll index 0..=P with the flag flipped inside that poll",
     "Every instant at which the stop flag can flip relative to search progress is enumerated for ~3000 (root, depth, table) cases; each run must return a legal move when one exists, enter no further node after the flip, and leave the caller's game unchanged. The fallback path alone (stop at poll 0) over 460k roots of U2, U3, UC, UPIN, UDBL, UCK, UE, UP.",
     SRCH+"; 'promptly' in virtual time (node entries after the flip)", "5/C07", "E4")
 chk("C08","operation-sequence exploration (E3) with a depth monitor in the node hook; the whole limit axis 1..255 with three prior histories and unlimited searches under poll watchdogs on tiny roots",
-    "No search with limit N may enter a node of iteration depth > N whatever earlier searches left in the table (all words up to length 2/3 over 8 families; every listed limit x {no history, S(p,N+1), S(p,255)} on tiny roots); unlimited searches on 75 tiny roots run to the engine's own end or the poll budget without crash, and a follow-up search on the same table still works. Deep histories: after an unlimited search that completed all 64 iterations, every kind of follow-up search must end by itself within its limit.",
+    "No search with limit N may enter a node of iteration depth > N whatever earlier searches left in the table (all words up to length 2/3 over 8 families; every listed limit x {no history, S(p,N+1), S(p,255)} on tiny roots); unlimited searches on 75 tiny roots run to the engine's own end or the poll budget without crash, and a follow-up search on the same table still works. Deep histories: after an unlimited search that completed all 64 iterations, every kind of follow-up search must end by itself within its limit. Repetition roots with a cached exact entry: every shuffle history x m x' m' x, the position first searched without history to depth 3-4, then with it under every smaller limit.",
     SRCH, "5/C08", "E3")
 chk("C09","exhaustive comparison over enumerated roots: table-less optimised search vs an unpruned unordered reference negamax on the same tree, five history-table states",
-    "For every root of the listed slices (~70k quick) and depths 1-3 (4) the value returned by get_best_move_entry with all table lookups forced to miss equals the exhaustive reference value after clamping mate-range scores, for all five history pre-fills. Iterations 4-5 on roots with <= 12 / <= 6 moves under a 300k-node reference cap. Mate-range scores (within 4000 of the 16-bit limits: the engine's three mate-score families) are clamped as the property's quantifier says.",
+    "For every root of the listed slices (~70k quick) and depths 1-3 (4) the value returned by get_best_move_entry with all table lookups forced to miss equals the exhaustive reference value after clamping mate-range scores, for all five history pre-fills. Iterations 4-5 on roots with <= 12 / <= 6 moves under a 300k-node reference cap. Mate-range scores (within 4000 of the 16-bit limits: the engine's three mate-score families) are clamped as the property's quantifier says. Universe UPQ (under-promotion geometry) and developed-opening roots (castling as the natural move).",
     "reference negamax built on the engine's public generator/evaluation (C01/C16 establish those); skip rule as stated in the property", "5/C09", "E1")
 chk("C10","explicit-state enumeration (E1) with a reference mate solver classifying every member; every mating / dead root searched by the real engine",
-    "Every member of the listed universes is classified by the model's AND/OR solver; all mate-in-1, forced-mate-in-2, checkmated and stalemated members are searched from a fresh table (unlimited and with depth 3/5): mate in one played and search stops by iteration 3, forced mate kept and search stops by iteration 5, dead roots yield no move. Full-board U4 slices with a defending piece (Q/n, R/n, Q/b, Q/r, q/N) contain the mates in two by zugzwang in which the defender must move a piece of his own.",
+    "Every member of the listed universes is classified by the model's AND/OR solver; all mate-in-1, forced-mate-in-2, checkmated and stalemated members are searched from a fresh table (unlimited and with depth 3/5): mate in one played and search stops by iteration 3, forced mate kept and search stops by iteration 5, dead roots yield no move. Full-board U4 slices with a defending piece (Q/n, R/n, Q/b, Q/r, q/N) contain the mates in two by zugzwang in which the defender must move a piece of his own. Bare-minor universes (B/n, B/b, N/n, NN) and the 5-men zugzwang universe UZ.",
     MODEL, "5/C10", "E1")
 chk("C18","operation-sequence exploration (E3): every `info pv` line of every search of every word replayed on the reference model",
-    "All principal variations printed during the C06 exploration (~370k non-empty lines quick), including those reconstructed from entries left by other searches, must be playable move by move on the reference model. Histories with interrupted searches (see C06): every pv line of every follow-up search is replayed on the model.",
+    "All principal variations printed during the C06 exploration (~370k non-empty lines quick), including those reconstructed from entries left by other searches, must be playable move by move on the reference model. Histories with interrupted searches (see C06): every pv line of every follow-up search is replayed on the model. Self-play lines and the free runs of the interrupted stage are audited too (depth 4-5 searches).",
     SRCH, "5/C18", "E3")
 
 E5 = "real uci_talk + search + timer threads on OS threads serialised by a baton scheduler at the hooked schedule points (H2/H3); sequentially consistent interleavings; virtual time"
 chk("C13","exhaustive input enumeration (E6): full Cartesian boundary grid G^4 x side and movetime grids through the real command_go in two build flavours; preemption-bounded schedule exploration (E5) of timed scripts",
-    "Every (wtime, btime, winc, binc) in G^4 (|G| = 12 quick / 22 thorough) for either side, every movetime alone / with depth / with infinite / with every clock: the budget handed to the timer equals `info time`, is <= the mover's clock resp. the movetime, no go kills the engine (checked and release-semantics builds), monotone in the clock; timed scripts under all interleavings: after the timer fired the search enters at most one more node. Partial and permuted parameter lists (clock without increments, the mover's clock alone, movestogo); the grid on a family of 12 positions (in check, single reply, mate in one, castling/en passant available, middlegame).",
+    "Every (wtime, btime, winc, binc) in G^4 (|G| = 12 quick / 22 thorough) for either side, every movetime alone / with depth / with infinite / with every clock: the budget handed to the timer equals `info time`, is <= the mover's clock resp. the movetime, no go kills the engine (checked and release-semantics builds), monotone in the clock; timed scripts under all interleavings: after the timer fired the search enters at most one more node. Partial and permuted parameter lists (clock without increments, the mover's clock alone, movestogo); the grid on a family of 12 positions (in check, single reply, mate in one, castling/en passant available, middlegame). Unimplemented go sub-commands (searchmoves with a move list, ponder, nodes, mate, movestogo) before, between and after the clock parameters.",
     E5+"; wall-clock latency not modelled", "5/C13", "E5+E6")
 chk("C14","stateless preemption-bounded schedule exploration (CHESS-style, E5) of the real UCI threads: all words of length <= 3 (4) over a 9-command alphabet, eager and reactive GUI, all interleavings with <= 2 (3) deviations",
-    "1600 scripts (quick) x every schedule within the deviation bound (~190k executions): no panic, no deadlock, every isready answered, bestmove count never exceeds accepted go, every due go answered exactly once with a move legal in the position it was asked about, a position/go sent after all earlier go were answered is never refused, no search left running with nothing to stop it; failing schedules are replayed twice for determinism. Command-grammar sessions (all words of length <= 2 over 107 command-line shapes) at native speed; 11 real-time sessions against the real binary whose only timing-dependent verdict is 'no answer within 90 s'; oracle clause for searches ended by something other than their limit or a command.",
+    "1600 scripts (quick) x every schedule within the deviation bound (~190k executions): no panic, no deadlock, every isready answered, bestmove count never exceeds accepted go, every due go answered exactly once with a move legal in the position it was asked about, a position/go sent after all earlier go were answered is never refused, no search left running with nothing to stop it; failing schedules are replayed twice for determinism. Command-grammar sessions (all words of length <= 2 over 107 command-line shapes) at native speed; 11 real-time sessions against the real binary whose only timing-dependent verdict is 'no answer within 90 s'; oracle clause for searches ended by something other than their limit or a command. Sessions with shuffle game records of every length 0-14; sleeping-timer cost model for the scripts about timers that outlive their search.",
     E5, "5/C14", "E5")
 chk("C15","checked build as monitor (unsafe-precondition / debug_assert / arrayvec capacity / bounds checks live in every exploration) plus exhaustive enumeration of the capacity corners: mobility catalogue and its complete 1-edit neighbourhood, all game lengths around the interface limit x listed search depths, self-play to its end",
-    "Every member of the mobility catalogue (218-move record, 9-queen positions, super-legal border-queen family) and of its 1-edit neighbourhood is generated in both modes for both sides; games of 1,2,397..400 plies through the real `position` command followed by unlimited and depth 1/34/64/255 searches; the real self-play loop with 1/50(/1000) polls per move until it ends. Capacity sweep (tail structures x every realised pseudo-legal count 236..300) puts the buffer boundary inside the batches of promoting pawns; the real binary's `auto` self-play must exit 0.",
+    "Every member of the mobility catalogue (218-move record, 9-queen positions, super-legal border-queen family) and of its 1-edit neighbourhood is generated in both modes for both sides; games of 1,2,397..400 plies through the real `position` command followed by unlimited and depth 1/34/64/255 searches; the real self-play loop with 1/50(/1000) polls per move until it ends. Capacity sweep (tail structures x every realised pseudo-legal count 236..300) puts the buffer boundary inside the batches of promoting pawns; the real binary's `auto` self-play must exit 0. Forced-line roots (both sides have exactly one legal move for ever) after games of up to 399 plies; castling rights the board does not support.",
     "assertions exist at every unsafe site (read: get_unchecked, push_unchecked, unwrap_unchecked, new_unsafe, add_unsafe); legal material assumed to give <= 256 pseudo-legal moves (measured maximum reported)", "5/C15", "E1+E6")
 chk("C19","operation-sequence exploration through the real uci_talk: every prior command word ending in ucinewgame vs a fresh engine (byte-identical transcripts); schedule exploration (E5) for schedule independence; second-process repetition",
-    "For 8 families every prior word of length 1 (and 2) over {position q; go depth e; wait} followed by ucinewgame and each of ~36 (root, depth) searches must print exactly the fresh engine's transcript; the search thread's lines are identical under every explored interleaving; fresh sessions repeat identically in-process and in a second process. Inert-command words (refused go, stop/wait without a search, show, refused position, uci, junk, second ucinewgame) between ucinewgame and the measured search; (d) the real binary (release build, hooks off) must reproduce every fresh transcript byte for byte, twice.",
+    "For 8 families every prior word of length 1 (and 2) over {position q; go depth e; wait} followed by ucinewgame and each of ~36 (root, depth) searches must print exactly the fresh engine's transcript; the search thread's lines are identical under every explored interleaving; fresh sessions repeat identically in-process and in a second process. Inert-command words (refused go, stop/wait without a search, show, refused position, uci, junk, second ucinewgame) between ucinewgame and the measured search; (d) the real binary (release build, hooks off) must reproduce every fresh transcript byte for byte, twice. (a3) tables beyond their initial capacity: deep searches after deep prior games and ucinewgame. (e) the real binary under an accelerated clock (LD_PRELOAD shim: clock_gettime runs 2000x faster): deep fixed-depth searches must print the same transcript.",
     E5+"; machine load / memory layout only as a two-point check", "5/C19", "E3+E5")
 
 def main():
